@@ -3,6 +3,10 @@
 # A harness counts as SUCCESS only if Kani reports "VERIFICATION:- SUCCESSFUL" and none of its cover properties is
 # UNSATISFIED/UNREACHABLE (a vacuity guard: the checked paths exist).
 #
+# Status: find_bit_in_bucket and Consecutive::owner_of are PROVED for all inputs in Verus (unit nft_consec, on the loops translator
+# rule T17 makes of the iterator chains). These harnesses run the VERBATIM iterator chains and are kept as a thorough-tier
+# cross-check of that translation; nothing is discharged only here any more.
+#
 # Harnesses and bounds
 #   consts_as_modelled                   IDS_IN_ITEM == 32 etc. on the verbatim constants (model/consec_ext.rs takes 32 on trust)
 #   find_bit_in_item_complete            COMPLETE: all (Option<u32>, u32) inputs; "first set bit at or after start, MSB first"
